@@ -22,7 +22,30 @@ let op_of (w : string) : op =
   | 'C' -> OComment (bytes_of_hex (String.sub w 1 (String.length w - 1)))
   | _ -> failwith "bad op"
 let kind_n (k : string) : n = n_of_int (match k with "s" -> 0 | "t" -> 1 | _ -> 2)
+(* SVCB parameter <-> wire value *)
+let rec u16s = function a :: b :: r -> n_of_int (int_of_n a * 256 + int_of_n b) :: u16s r | _ -> []
+let rec chunks k l = if l = [] then [] else
+  let rec take i acc r = if i = 0 then (List.rev acc, r) else (match r with x :: r' -> take (i-1) (x :: acc) r' | [] -> (List.rev acc, [])) in
+  let (c, r) = take k [] l in c :: chunks k r
+let rec alpn_ids = function [] -> [] | l :: r ->
+  let rec take i acc r = if i = 0 then (List.rev acc, r) else (match r with x :: r' -> take (i-1) (x :: acc) r' | [] -> (List.rev acc, [])) in
+  let (c, r') = take (int_of_n l) [] r in c :: alpn_ids r'
+let param_of_wire (k : int) (v : n list) : svcparam =
+  match k with
+  | 0 -> PMandatory (u16s v) | 1 -> PAlpn (alpn_ids v) | 2 -> PNoDefaultAlpn | 3 -> PPort (List.hd (u16s v))
+  | 4 -> PIp4hint (chunks 4 v) | 5 -> PEch v | 6 -> PIp6hint (List.map u16s (chunks 16 v)) | 7 -> PDohpath v
+  | 8 -> POhttp | 9 -> PGroups (u16s v) | _ -> PUnknown (n_of_int k, v)
+let be16 (x : n) = [n_of_int (int_of_n x / 256); n_of_int (int_of_n x mod 256)]
+let wire_of_param (p : svcparam) : int * n list =
+  match p with
+  | PMandatory ks -> (0, List.concat (List.map be16 ks))
+  | PAlpn ids -> (1, List.concat (List.map (fun i -> n_of_int (List.length i) :: i) ids))
+  | PNoDefaultAlpn -> (2, []) | PPort x -> (3, be16 x) | PIp4hint l -> (4, List.concat l) | PEch b -> (5, b)
+  | PIp6hint l -> (6, List.concat (List.map (fun g -> List.concat (List.map be16 g)) l)) | PDohpath b -> (7, b)
+  | POhttp -> (8, []) | PGroups l -> (9, List.concat (List.map be16 l)) | PUnknown (k, b) -> (int_of_n k, b)
 let handle = function
+  | ["svcshow"; k; h] -> hx (c06_svcshow (param_of_wire (int_of_string k) (bytes_of_hex h)))
+  | ["svcread"; h] -> show_o (fun p -> let (k, v) = wire_of_param p in string_of_int k ^ " " ^ hx v) (c06_svcread (bytes_of_hex h))
   | ["label"; h] -> hx (c06_show_label (bytes_of_hex h))
   | ["cstr"; m; h] -> hx (c06_show_cstr (n_of_int (match m with "q" -> 0 | "u" -> 1 | _ -> 2)) (bytes_of_hex h))
   | ["rdname"; w] ->
@@ -58,7 +81,7 @@ let handle = function
       | 't' -> VTypes (if a = "" then [] else List.map (fun x -> n_of_int (int_of_string x)) (String.split_on_char ',' a))
       | 'm' -> VRtype (n_of_int (int_of_string a))
       | 's' -> (match b16_display (bytes_of_hex a) with Ok t -> VSalt t | _ -> failwith "b16")
-      | 'z' -> (match b32_display (bytes_of_hex a) with Ok t -> VWord t | _ -> failwith "b32")
+      | 'z' -> VB32 (bytes_of_hex a)
       | 'o' -> VQuoted (bytes_of_hex a)
       | 'i' -> VIp4 (bytes_of_hex a)
       | 'd' -> VDot
